@@ -8,7 +8,7 @@ from vlib.core import Infra, VERIF, read_ndjson
 
 LEVEL = {"C34": "model_checking", "C01": "model_checking"}
 # donors: checks whose drivers execute model-generated programs through host.World
-QUICK_DONORS = ["C22", "C10", "C02", "C25"]
+QUICK_DONORS = ["C22", "C10", "C02", "C25", "C49", "C20"]
 ALL_DONORS = ["C22", "C02", "C04", "C05", "C20", "C25", "C26", "C27", "C49", "C10", "C52", "C07", "C09", "C48", "C29", "C18", "C19", "C21"]
 
 
@@ -35,7 +35,7 @@ def run_donors(ctx, donors, tier):
         p = subprocess.run([os.path.join(VERIF, "bin", "vcheck"), d, "--tier", tier], env=env, stdout=subprocess.PIPE,
                            stderr=subprocess.STDOUT, text=True, cwd=VERIF)
         return d, p.returncode, time.time() - t, p.stdout[-1500:]
-    with cf.ThreadPoolExecutor(max_workers=4) as ex:
+    with cf.ThreadPoolExecutor(max_workers=6) as ex:
         for d, rc, wall, tail in ex.map(one, donors):
             stats[d] = {"rc": rc, "wall_s": round(wall, 1)}
             ctx.log("donor %s rc=%d %.0fs" % (d, rc, wall))
